@@ -573,6 +573,44 @@ def rule_u128_count_chunks(col, facts):
 
 
 # ---------------------------------------------------------------------------------------------
+def rule_ok_requires_digits(col, facts):
+    """MPT-ok: with `format`, "digits are required" is a run-time property of the format.  Both integer
+    algorithms return Ok only through a test that either the format does not require digits or at least one
+    digit was counted; the complete parser has it on every exit, so a partial exit without it accepts
+    (value 0, n) for a prefix the complete parser rejects as Empty."""
+    if "format" not in facts.config:
+        return
+    R = "MPT-ok"
+    for name in ("algorithm_complete", "algorithm_partial"):
+        f = facts.fn("lexical_parse_integer::algorithm::" + name)
+        n = 0
+        for i, b in enumerate(f.blocks):
+            if not f.live(i):
+                continue
+            for st in b["s"]:
+                if not (st[0] == "=" and st[2][0] == "agg" and st[2][1][0] == "adt" and "result::Result" in st[2][1][1] and st[2][1][3] == "Ok"):
+                    continue
+                n += 1
+                bad_alt = None
+                for alt in reach_alternatives(f, i):
+                    ok = False
+                    for _d, e, p in alt:
+                        e = strip_casts(e)
+                        if e[0] == "kc" and last_seg(e[1]).startswith("REQUIRED_") and p is False:
+                            ok = True
+                        if e[0] == "bin" and e[1] == "Eq" and strip_casts(e[3]) == ("k", 0) and p is False and (
+                                any(last_seg(c[1]) == "current_count" for c in expr_calls(e)) or strip_casts(e[2])[0] in ("var", "k")):
+                            ok = True
+                        if e[0] == "bin" and e[1] == "Ne" and strip_casts(e[3]) == ("k", 0) and p is True and any(last_seg(c[1]) == "current_count" for c in expr_calls(e)):
+                            ok = True
+                    if not ok:
+                        bad_alt = alt
+                col.check(R, "%s:ok#%d" % (name, n), bad_alt is None,
+                          "an Ok(..) result is returned on a path that neither found the format not to require digits nor a non-zero digit count (last conditions: %s)" % ([(show(e)[:50], p) for _d, e, p in (bad_alt or [])][-3:]), f.loc(st[3]))
+        col.floor(R, "Ok sites in %s" % name, n, 3)
+
+
+# ---------------------------------------------------------------------------------------------
 def rule_bigfloat_bits(col, facts):
     """TBL-limits (Bigfloat): byte_comp scales b+h by radix^|sci_exp| up to 2^1075 and multiplies by a
     64-bit significand: EXPONENT_BIAS + 64 bits at least."""
